@@ -7,7 +7,8 @@ import itertools
 import math
 
 STEPS = [1, 2, 3, 5, 7, 8, 12]
-PUSH = ["lin", "next", "prev", "step", "avg", "sum"]
+PUSH_DRAWN = ["lin", "next", "prev", "step", "avg", "sum"]
+PUSH = PUSH_DRAWN + ["hold", "holdnd"]  # "hold*": user-defined push-based adapters, only placed on request (user_adapters=...)
 INTEG = ("avg", "sum")
 PASS = ["scale", "probe"]
 
@@ -42,7 +43,7 @@ def draw_chain(rnd, maxlen=3, allow_push=True, allow_delay=True, allow_dpush=Tru
     n = rnd.choice([0, 1, 1, 2, 2, 3][: 2 * maxlen])
     kinds = list(PASS)
     if allow_push:
-        kinds += PUSH
+        kinds += PUSH_DRAWN
     if allow_delay:
         kinds += ["dfix", "dfix", "dpull"] + (["dpush"] if allow_dpush else [])
     chain = []
@@ -251,7 +252,9 @@ def gen_dag(rnd, *, cycle=None, pull_prob=0.25, parallel_prob=0.25, offsets=True
     start = 0
     horizon = rnd.choice([10, 24, 37, 60]) if not long_end else rnd.choice([60, 120])
     end = start + horizon + rnd.choice([0, 0, 0.5, 1])
-    return dict(comps=comps, links=links, trunks=trunks, order=order, link_order=link_order, start=start, end=end,
+    # the composition may also be left to find its start time itself (the earliest start of its time components)
+    auto = rnd.random() < 0.3 and min(c["start"] for c in comps if c["type"] == "time") == start
+    return dict(comps=comps, links=links, trunks=trunks, order=order, link_order=link_order, start=start, end=end, auto_start=auto,
                 meta=dict(n_time=n, cyclic=bool(cycle), n_pull=npull, n_trunks=len(trunks)))
 
 
@@ -441,3 +444,47 @@ def gen_branching(rnd):
     rnd.shuffle(link_order)
     return dict(comps=comps, links=links, trunks=trunks, order=order, link_order=link_order, start=0, end=rnd.choice([6, 12]),
                 meta=dict(n_time=4, cyclic=False, n_pull=0, n_trunks=1, klass="branching"))
+
+
+def with_user_adapters(spec, rnd, prob=0.5):
+    """replace some shipped push-based time adapters by a user-defined push-based adapter (same position on the
+    link, so delays keep their effect); such links deliver 'the last published data', which makes values depend
+    on the schedule - only for properties that judge scheduling, not values"""
+    for ln in spec["links"]:
+        for a in ln["chain"]:
+            if a[0] in ("lin", "next", "prev", "step") and rnd.random() < prob:
+                a[:] = ["hold"]
+    return spec
+
+
+def gen_holdnd_ring(rnd):
+    """a ring without any delay, broken only by a user-defined adapter that is push-based and declares that it breaks
+    the scheduling dependency: must run"""
+    for _ in range(20):
+        spec = gen_ring(rnd, klass="none", pull_prob=0.0)
+        if spec["meta"]["cycles"] == 1:
+            break
+    ring = [ln for ln in spec["links"] if int(ln["src"][0][1:]) < spec["meta"]["n_ring"] and int(ln["dst"][0][1:]) < spec["meta"]["n_ring"]]
+    ln = rnd.choice(ring)
+    ln["chain"] = ([[rnd.choice(PASS)]] if rnd.random() < 0.3 else []) + [["holdnd"]] + ([[rnd.choice(PASS)]] if rnd.random() < 0.3 else [])
+    spec["meta"].update(klass="holdnd_ring", expect="ok" if spec["meta"]["cycles"] == 1 else "either")
+    return spec
+
+
+def with_delay_below_integration(spec, rnd):
+    """put a fixed delay directly downstream of an integration adapter on some links (C01's quantifier ranges over
+    every ordering of adapters; on the unchanged tree this ordering is known finding F22)"""
+    done = 0
+    for ln in spec["links"]:
+        pos = [k for k, a in enumerate(ln["chain"]) if a[0] in INTEG]
+        if pos and not ln.get("trunk") and rnd.random() < 0.7:
+            ln["chain"].insert(pos[-1] + 1, ["dfix", rnd.choice([1, 2, 4, 13])])
+            done += 1
+    if not done:
+        cands = [ln for ln in spec["links"] if not ln.get("trunk") and not ln.get("stateless_only") and not ln["src"][0].startswith("p") and not ln["dst"][0].startswith("p")]
+        if cands:
+            ln = rnd.choice(cands)
+            ln["chain"] = [[rnd.choice(INTEG)], ["dfix", rnd.choice([1, 2, 4, 13])]] + [a for a in ln["chain"] if a[0] in PASS]
+            done = 1
+    spec["meta"]["integ_before_delay"] = bool(done)
+    return spec
